@@ -34,6 +34,19 @@ from .bpf import MapFlags, MapType, create_map, lookup_elem, update_elem
 from .ebpf import Expression, FuncId, Map, MemoryDesc, fmtsize
 
 
+def possible_cpus():
+    """the number of possible CPUs, per-CPU map values have that many entries
+
+    This may be more than :func:`os.cpu_count`, which counts online CPUs."""
+    try:
+        with open("/sys/devices/system/cpu/possible") as fin:
+            ranges = fin.read().strip().split(",")
+        return sum(int(r.split("-")[-1]) - int(r.split("-")[0]) + 1
+                   for r in ranges)
+    except (OSError, ValueError):
+        return cpu_count()
+
+
 class ArrayGlobalVarDesc(MemoryDesc):
     def __init__(self, map, fmt):
         self.map = map
@@ -217,7 +230,7 @@ class PerCPUArrayMap(ArrayMap):
         return PerCPUVarDesc(self, fmt)
 
     def create_map(self, ebpf, fd):
-        self.cpu_no = cpu_count()
+        self.cpu_no = possible_cpus()
         if fd is None:
             fd = create_map(MapType.PERCPU_ARRAY, 4, self.size, 1)
         setattr(ebpf, self.name, PerCPUReader(self, fd))
